@@ -14,7 +14,7 @@ func init() {
 		Run: func(p *Prog, tier string) []*RuleResult {
 			return []*RuleResult{
 				runtimeNamesRule(p, "C02/R1 runtime-names", map[string]bool{"linker": true, "bundler": true, "graph": true, "js_printer": true}, 10),
-				c02LoadOnce(p), c02LoaderDispatch(p), c02CycleCut(p), c02AwaitFollowsCallee(p), c02WrapperCallAwaitable(p), c02RequireOfTLADiagnosed(p),
+				c02LoadOnce(p), c02LoaderDispatch(p), c02CycleCut(p), c02AwaitFollowsCallee(p), c02WrapperCallAwaitable(p), c02RequireOfTLADiagnosed(p), c02InitBeforeReExport(p),
 				renamed(c09Frozen(p), "C02/R5 shared-ast-immutability", "modules are linked from parsed ASTs (and lazily exported JSON/CSS values) that the caches share between builds and between the parallel per-entry-point links: a link-time store into AST memory that was not cloned for this link makes the next link bundle a corrupted module (same analysis as C09/R2)"),
 			}
 		},
@@ -23,7 +23,7 @@ func init() {
 		ID:          "C05",
 		Explanation: "Decides one structural necessary condition of 'syntax lowering preserves behaviour': every runtime helper the lowering passes of the parser call or import by name (__async, __asyncGenerator, __privateGet/Set/Add/Method/In, __publicField, __objRest, __spreadValues/Props, __pow, __template, __using, __callDispose, __decorate*, __forAwait, __yieldStar, __await, __superGet/Set, ...) is exported by the embedded runtime text in every feature branch. It decides the existence of the helper, nothing about what it does. R2 decides one ordering fact of object-rest lowering on the control-flow graph: within one iteration of the property loop of lowerObjectRestHelper's visitor, every path to the splitObjectPattern call passes the key capture (captureKeyForObjectRest) or the edge on which the pattern has no trailing rest, so `rest` excludes every property before it. R3 synthesised-this: sibling agreement of the super-property lowering helpers on the bookkeeping of the `this` they write (two known findings). R4 cannot-throw-table: couldPotentiallyThrow answers 'cannot throw' only for primitive literals and function/arrow expressions. R5 implied-features-unmasked: fixInvalidUnsupportedJSFeatureOverrides ORs the implied bits in as given. R6 hoist-first-evaluated: every call of findFirstTopLevelSuperCall receives the child its statement kind evaluates first and once (table of statement/child pairs). NOT covered: once-only evaluation, this/super binding, short-circuit order of the lowered code (a linear-use analysis was considered and declined, see DESIGN.md).",
 		Run: func(p *Prog, tier string) []*RuleResult {
-			return []*RuleResult{runtimeNamesRule(p, "C05/R1 runtime-names", map[string]bool{"js_parser": true}, 40), c05ObjectRestExclusion(p), c05SynthesisedThis(p), c05CannotThrow(p), c05ImpliedFeaturesUnmasked(p, "C05/R5 implied-features-unmasked"), c05HoistFirstEvaluated(p)}
+			return []*RuleResult{runtimeNamesRule(p, "C05/R1 runtime-names", map[string]bool{"js_parser": true}, 40), c05ObjectRestExclusion(p), c05SynthesisedThis(p), c05CannotThrow(p), c05ImpliedFeaturesUnmasked(p, "C05/R5 implied-features-unmasked"), c05HoistFirstEvaluated(p), markingTraversalComplete(p, "C05/R7 marking-traversal-visits-every-child"), c05AssignTargetVisitsAll(p)}
 		},
 	})
 }
